@@ -252,3 +252,10 @@ func VerifNewBackupManager(store *Store, env *conf.Config) (*BackupManager, erro
 }
 
 func (backupManager *BackupManager) VerifLastID() uint64 { return backupManager.lastID }
+
+func (s *Store) VerifMutex(kind string) *sync.Mutex {
+	if m, ok := s.idmux.(*sync.Mutex); ok && kind == "store.idmux" {
+		return m
+	}
+	return nil
+}
